@@ -29,6 +29,7 @@ PROPS = {
     "C12": {
         "lanes": [
             {"lane": "unpack-faults", "quick": 12, "thorough": 40},
+            {"lane": "unpack", "quick": 1500, "thorough": 30000},   # policy rejections are reported; success means the whole archive
             {"lane": "builder-faults", "quick": 40, "thorough": 400},
             {"lane": "builder", "quick": 600, "thorough": 10000},
             {"lane": "pack-faults", "quick": 12, "thorough": 60},
@@ -41,6 +42,7 @@ PROPS = {
         "lanes": [
             {"lane": "pack", "quick": 2500, "thorough": 60000},
             {"lane": "unpack", "quick": 1200, "thorough": 20000},
+            {"lane": "pack-spelling", "quick": 40, "thorough": 1000},   # a reused Packer still reproduces the tree
         ],
         "trusted_base": [STDLIB, FSMODEL, "tar.Writer rounds ModTime to the nearest second under FormatUnknown (modelled as roundSec); PAX/USTAR encodings of long and non-ASCII names are exercised but not modelled below the entry level"],
         "assumptions": ["trees of regular files, directories and relative links that stay inside the tree without re-entering it by its own name (F37); special files are skipped; the round-trip oracle is applied without ignore rules and without dereferencing"],
@@ -69,6 +71,7 @@ PROPS = {
         "lanes": [
             {"lane": "pack", "quick": 2500, "thorough": 60000},
             {"lane": "pack-spelling", "quick": 40, "thorough": 1000},   # Packer reuse after a failed Pack
+            {"lane": "pack-faults", "quick": 6, "thorough": 40},   # a Meta is only returned for a slug that was written in full
         ],
         "trusted_base": [STDLIB, FSMODEL],
         "assumptions": [],
@@ -144,6 +147,7 @@ PROPS = {
         "lanes": [
             {"lane": "builder", "quick": 1500, "thorough": 40000},
             {"lane": "builder-faults", "quick": 20, "thorough": 200},
+            {"lane": "builder-order", "quick": 25, "thorough": 300},   # overlapping Add calls: fetched / analysed once
         ],
         "trusted_base": [BUILDERMODEL],
         "assumptions": ["exactly-once for fetch / version list / source address is stated for keys without a failure event (a failed fetch may be retried within the same call; the build is poisoned afterwards)"],
